@@ -261,4 +261,48 @@ theorem src_integrity_rejects (body : List (List Rat)) (vals : List Rat) (shape 
   · intro h hmn hmx hbad
     simp [guardE, h, bind, Except.bind, range_mismatch_rejected lo hi mn mx vals hmn hmx hbad]
 
+/-- The lines of a token-level file as `_read_surfer_header` reads them. -/
+def headerLines (f : SurferFile) : List SLine :=
+  [⟨f.gridId, []⟩, ⟨"", f.shapeLine⟩, ⟨"", f.nsLine⟩, ⟨"", f.weLine⟩, ⟨"", f.rangeLine⟩]
+
+/-- **Bridge.**  The `try:` body of `load_surfer` as regenerated from /repo's source text on every run — the unpacking of the translated header
+    reader, `np.loadtxt`, the blank mask `field >= <literal>` (the literal read from the source; `surferBlankLiteral`), the translated integrity
+    check on the masked field, `northing = linspace(*region[2:], shape[0])`, `easting = linspace(*region[:2], shape[1])` (slices and indices read
+    from the source), dims `('northing', 'easting')` and the grid id — equals the model's `loadSurfer` result for every token-level file. -/
+theorem gen_load_surfer_eq_model (f : SurferFile) :
+    Gen.loadSurferTry (headerLines f) f.body f.blank = (loadSurfer f).1 := by
+  unfold Gen.loadSurferTry loadSurfer headerLines
+  simp only [bind, Except.bind]
+  rw [gen_read_surfer_header_eq_model f "" "" "" "" []]
+  cases hp : parseHeader f with
+  | error e => rfl
+  | ok hd =>
+    simp only [Except.map, loadBody, loadtxtE, guardE, bind, Except.bind]
+    by_cases hr : (f.body.all fun r => r.length == (f.body.headD []).length) = true
+    · simp only [hr, if_true]
+      rw [gen_check_surfer_integrity_eq_model]
+      simp only [guardE, bind, Except.bind]
+      by_cases hs : fieldShape f.body = hd.shape
+      · simp only [hs, decide_true, if_true]
+        cases hrc : rangeCheck hd.range ((f.body.map (maskRow f.blank)).flatten.filterMap id) with
+        | error e => rfl
+        | ok u =>
+          simp only [gridOfShape]
+          unfold fieldShape at hs
+          have hn : ∀ k : Nat, ¬ ((k : Int) < 0) := fun k => by omega
+          by_cases h1 : f.body.length = 1
+          · simp only [h1, if_true] at hs
+            rw [← hs]
+            simp [idxI, linspaceE, hn]
+          · simp only [h1, if_false] at hs
+            rw [← hs]
+            simp [idxI, linspaceE, pure, Except.pure, hn]
+      · simp [hs]
+    · have hr' : ¬ ∀ x ∈ f.body, x.length = (f.body.head?.getD []).length := by simpa using hr
+      simp [hr']
+
+/-- The blank threshold written in the source is the model's float64 threshold. -/
+theorem gen_surfer_blank_literal : Gen.surferBlankLiteral = surferBlank := by
+  unfold Gen.surferBlankLiteral surferBlank; norm_num
+
 end Verde.C19
